@@ -1,6 +1,7 @@
 import CelmaVerif.Lemmas.UsageTree
 import CelmaVerif.Lemmas.UsageLines
 import CelmaVerif.Lemmas.UsageReach
+import CelmaVerif.Lemmas.UsagePartition
 /-
   C18 — the usage lists exactly the visible arguments, each once.
   Property theorems only; the specification-side definitions (how a usage text is read: `classify`,
@@ -283,6 +284,8 @@ theorem C18_switches (f : Flags) (u : UsageParams) :
     * no argument has exactly this key and the abbreviation is ambiguous (two long keys start with it) among
       the plain arguments, or - no plain argument being meant - among the sub-group arguments:
       `std::runtime_error`.
+    (`k` is a key object: a `raw` string `ArgumentKey( raw)` refuses - empty, ",", a blank, too many dashes /
+    commas - ends in `std::invalid_argument` before the lookup and is outside this statement.)
     (Repaired in `/repo` twice: the unchanged tree looked the description up with the key as typed and printed
     an empty description for every abbreviation; and it searched the plain arguments including abbreviations
     before the sub-group arguments, so `--help-arg group` printed the description of `--group-x` although
@@ -339,21 +342,62 @@ theorem C18_help_arg_built (h : Handler) (hb : h.Built) (raw : Str) (k : Key) :
     HelpOutcome h.args h.flags.noAbbr raw k (helpArgument h raw k) :=
   C18_help_arg h raw k (built_distinct h hb)
 
-/-- (the standard arguments of one command line) The display settings in force after the standard arguments
-    `sw` (what `C18_listing` … `C18_usage_total` call `sw.foldl (Switch.apply h.flags) h.params`): hidden
-    arguments are displayed iff `--print-hidden` was NOT used and `hfUsageHidden` preset it, or it was used and
-    the preset is off (a boolean flag argument stores the negation of its destination's value at definition
-    time); the same for deprecated ones; the contents is the one the last `--help-short` / `--help-long` asked
-    for, "all" (the value at construction) when there was none.  With `C18_membership`: on a handler without
-    `hfUsageHidden`, `prog --print-hidden -h` lists the hidden arguments, `prog -h` does not. -/
-theorem C18_switch_effect (f : Flags) (sw : List Switch) :
-    (sw.foldl (Switch.apply f) (Handler.new f).params).printHidden
-        = (if Switch.printHidden ∈ sw then !f.usageHidden else f.usageHidden)
-    ∧ (sw.foldl (Switch.apply f) (Handler.new f).params).printDeprecated
-        = (if Switch.printDeprecated ∈ sw then !f.usageDeprecated else f.usageDeprecated)
-    ∧ (sw.foldl (Switch.apply f) (Handler.new f).params).contents
-        = lastD (sw.filterMap Switch.contentsValue) .all :=
-  switches_effect f sw (Handler.new f).params
+/-- (the standard arguments of one command line, every handler that can be built) The display settings in force
+    after the standard arguments `sw` (what `C18_listing` … `C18_usage_total` call
+    `sw.foldl (Switch.apply h.flags) h.params`), for EVERY handler made with the definition operations (constructor
+    with any flags, any number of `addArgument` + modifiers, `setUsageLineLength`; they never touch the settings:
+    `built_params`): hidden arguments are displayed iff `--print-hidden` was NOT used and `hfUsageHidden` preset
+    it, or it was used and the preset is off (a boolean flag argument stores the negation of its destination's
+    value at definition time); the same for deprecated ones; the contents is the one the last `--help-short` /
+    `--help-long` asked for, "all" (the value at construction) when there was none.
+    (Until the second audit this was stated for `(Handler.new f).params` only, i.e. for a handler without any
+    argument of its own.)  Handler trees: `t.main.params` of a tree is NOT covered - the sub-group constructor
+    switches the shared "print deprecated" on (`Tree.newSub`); for trees the closed form is relative to
+    `t.main.params` (`C18_settings_shared`). -/
+theorem C18_switch_effect (h : Handler) (hb : h.Built) (sw : List Switch) :
+    (sw.foldl (Switch.apply h.flags) h.params).printHidden
+        = (if Switch.printHidden ∈ sw then !h.flags.usageHidden else h.flags.usageHidden)
+    ∧ (sw.foldl (Switch.apply h.flags) h.params).printDeprecated
+        = (if Switch.printDeprecated ∈ sw then !h.flags.usageDeprecated else h.flags.usageDeprecated)
+    ∧ (sw.foldl (Switch.apply h.flags) h.params).contents
+        = lastD (sw.filterMap Switch.contentsValue) .all := by
+  rw [built_params h hb]
+  exact switches_effect h.flags sw (Handler.new h.flags).params
+
+/-- (`--print-hidden -h` lists the hidden arguments, `-h` alone does not) On every handler that can be built,
+    constructed WITHOUT `hfUsageHidden`, and every command line `<standard arguments sw> -h` whose text is
+    written (`u` = the settings in force):
+    * `--print-hidden` among the standard arguments, no `--help-short` / `--help-long`: every argument that is
+      not deprecated - hidden or not - has its entry in the listing;
+    * no `--print-hidden`: every entry of the listing is the entry of an argument that is NOT hidden.
+    End-to-end corollary of `C18_switch_effect` and `C18_membership`; no hypothesis on the settings object. -/
+theorem C18_print_hidden_lists_hidden (h : Handler) (hb : h.Built) (sw : List Switch) (ls : List Str)
+    (hk : ∀ a ∈ h.args, KeyClean a.key) (hu : usageWith h sw = .ok ls) (hf : h.flags.usageHidden = false) :
+    (Switch.printHidden ∈ sw → sw.filterMap Switch.contentsValue = [] →
+        ∀ a ∈ h.args, a.deprecated = false →
+          expectedEntry (sw.foldl (Switch.apply h.flags) h.params) a ∈ parseUsage ls)
+    ∧ (Switch.printHidden ∉ sw →
+        ∀ e ∈ parseUsage ls, ∃ b ∈ h.args, b.hidden = false
+          ∧ e = expectedEntry (sw.foldl (Switch.apply h.flags) h.params) b) := by
+  obtain ⟨e1, _, e3⟩ := C18_switch_effect h hb sw
+  obtain ⟨_, m2, m3⟩ := C18_membership h sw ls hk hu
+  generalize sw.foldl (Switch.apply h.flags) h.params = u at *
+  constructor
+  · intro hin hc a ha hd
+    rw [if_pos hin, hf] at e1
+    rw [hc] at e3
+    have e3' : u.contents = .all := e3
+    apply m3 a ha
+    unfold visible; rw [e1, e3', hd]; simp
+  · intro hn e he
+    obtain ⟨b, hb', hv, rfl⟩ := m2 e he
+    refine ⟨b, hb', ?_, rfl⟩
+    rw [if_neg hn, hf] at e1
+    unfold visible at hv
+    rw [e1] at hv
+    cases hbh : b.hidden
+    · rfl
+    · rw [hbh] at hv; simp at hv
 
 /-- (nothing else is printed) The reader behind `C18_listing` / `C18_captions` uses caption lines, entry lines
     and the continuation lines directly below an entry.  The lines of the usage text it does NOT use
@@ -404,6 +448,27 @@ theorem C18_lines_are_lines (h : Handler) (sw : List Switch) (ls : List Str)
         subst hu
         exact usage_text_noNl _ _ _ _ _ hk
   exact ⟨h1, splitNl_unlines ls h1⟩
+
+/-- (reader and complement partition the lines) For EVERY list of lines (not only usage texts): the reader
+    `parseUsage` / `captions` and its complement `ignoredLines` - two walks over the lines in
+    Lemmas/UsageSpec.lean - account for every line exactly once, and what an entry owns does not depend on a walk:
+    * the entries read are, in order, the entries that start at the entry lines of the text; each has the key of
+      its line and the words of its line followed by those of exactly the run of continuation lines directly
+      below it (`entryAt`, evaluated on the text from that line on);
+    * number of lines = caption lines + entry lines + continuation lines owned by the entry above them
+      (`absorbed`: for every entry line the length of the run directly below) + ignored lines;
+    * the ignored lines are lines of the text, in text order, and none of them is a caption or an entry line.
+    So a continuation line is either owned by the entry directly above (its words are in that entry,
+    `C18_entry`) or reported by `ignoredLines` (`C18_no_other_lines`: empty for usage texts) - the two walks
+    cannot drift apart without breaking the count for some text. -/
+theorem C18_lines_partition (ls : List Str) :
+    (parseUsage ls).map (fun e => (e.key, e.words)) = ((suffixes ls).filterMap entryAt).map (fun x => (x.1, x.2.1))
+    ∧ ls.length = (captions ls).length + (parseUsage ls).length + absorbed ls + (ignoredLines ls).length
+    ∧ (ignoredLines ls).Sublist ls
+    ∧ (∀ l ∈ ignoredLines ls, classify l = .other ∨ classify l = .cont) := by
+  refine ⟨parseFrom_entries none ls, ?_, ignoredFrom_sublist false ls, ignoredFrom_kind false ls⟩
+  have := lines_partition_from none false ls
+  simpa [parseUsage, ignoredLines] using this
 
 /-! ### sub-group handlers -/
 
@@ -610,7 +675,15 @@ theorem C18_subgroup_help_arg_outcomes (t : Tree) (hb : t.Built) (k : Nat) (s : 
     * no sub-group argument is meant by `g`: nothing on the output, `*** ERROR: Sub-group argument '<full>' is
       unknown!` on the error stream;
     * no sub-group argument has exactly the key `g` and two long keys of sub-group arguments start with it:
-      `std::runtime_error`. -/
+      `std::runtime_error`.
+    OUTSIDE the statement (the keys `g`, `restKey` are parameters: cutting the string at the first `/` and the two
+    `ArgumentKey( …)` constructions are not modelled, neither here nor in `C18_help_arg`): a request whose part
+    before or behind the `/` is EMPTY or not a key - `--help-arg /b` throws `std::invalid_argument` from
+    `ArgumentKey( "")` before anything is looked up; `--help-arg g/` throws the same from the sub-group handler's
+    `helpArgument( "")` when `g` names a sub-group argument and prints the "unknown" line when it does not -, and
+    a `rest` with a second `/` (the sub-group handler of this depth-2 tree answers "Sub-group argument … is
+    unknown").  These are a fourth and fifth outcome of the real call; the differential run does not send such
+    strings (generator and harness refuse them as `bad-op`). -/
 theorem C18_help_arg_slash (t : Tree) (hb : t.Built) (full : Str) (g : Key) (rest : Str) (restKey : Key) :
     (∃ a ∈ subGroupArgs t.main.args, ∃ k s, a.subGroup = some k ∧ t.subs[k]? = some s
         ∧ keyMatches (!t.main.flags.noAbbr) a g = true
@@ -810,5 +883,53 @@ example :
   have b4 : t4.Built := .newSub _ _ b3
   have b5 : t5.Built := .group t4 _ _ 1 [] b4 (by decide)
   exact ⟨t5, b5, by decide, by decide, by decide, by decide, by decide, by decide⟩
+
+/-- `C18_switch_effect` / `C18_print_hidden_lists_hidden` applied to a handler WITH arguments of its own (a
+    mandatory one with a check, a hidden flag `-b`), built through the definition operations: all hypotheses
+    hold, the text of `--print-hidden -h` is written and - through the theorem - holds the entry of the hidden
+    `-b`; and the settings in force are the closed form although two arguments were added after construction -/
+example :
+    ∃ h : Handler, h.Built ∧ h.flags.usageHidden = false ∧ (h.args.filter (·.hidden)).length = 1
+      ∧ (∃ ls, usageWith h [.printHidden] = .ok ls
+          ∧ ∀ a ∈ h.args, a.deprecated = false →
+              expectedEntry ([Switch.printHidden].foldl (Switch.apply h.flags) h.params) a ∈ parseUsage ls)
+      ∧ (∃ ls, usageWith h [] = .ok ls
+          ∧ ∀ e ∈ parseUsage ls, ∃ b ∈ h.args, b.hidden = false
+              ∧ e = expectedEntry (([] : List Switch).foldl (Switch.apply h.flags) h.params) b)
+      ∧ ([Switch.printHidden, .helpShort].foldl (Switch.apply h.flags) h.params)
+          = { contents := .shortOnly, printHidden := true, printDeprecated := false } := by
+  let f : Flags := { Flags.none with helpShort := true, helpLong := true, argHidden := true }
+  let a1 : Arg := { key := ⟨some 'a', "alpha".toList⟩, desc := "the alpha value".toList, takesValue := true,
+                    isFlag := false, defaultText := some "42".toList, printDefault := true }
+  let a2 : Arg := { key := ⟨some 'b', []⟩, desc := "secret".toList, takesValue := false, isFlag := true,
+                    defaultText := none, printDefault := false }
+  let h : Handler := (((Handler.new f).addArgument a1 [.mandatory, .check "lower" "Value >= 3".toList]).1.addArgument a2 [.hidden]).1
+  have hb : h.Built := .add _ _ _ (.add _ _ _ (.new f))
+  have hk : ∀ a ∈ h.args, KeyClean a.key := by
+    have hargs : ∀ a ∈ h.args, keyCleanB a.key = true := by decide
+    exact fun a ha => keyClean_of_bool _ (hargs a ha)
+  have hok : ∀ {α : Type} (r : Res α), (okVal r).isSome = true → ∃ x, r = .ok x := by
+    intro α r hr; cases r <;> simp [okVal] at hr ⊢
+  obtain ⟨ls1, h1⟩ := hok (usageWith h [.printHidden]) (by decide)
+  obtain ⟨ls0, h0⟩ := hok (usageWith h []) (by decide)
+  refine ⟨h, hb, rfl, by decide, ⟨ls1, h1, ?_⟩, ⟨ls0, h0, ?_⟩, ?_⟩
+  · exact (C18_print_hidden_lists_hidden h hb [.printHidden] ls1 hk h1 rfl).1 (by decide) (by decide)
+  · exact (C18_print_hidden_lists_hidden h hb [] ls0 hk h0 rfl).2 (by decide)
+  · obtain ⟨e1, e2, e3⟩ := C18_switch_effect h hb [.printHidden, .helpShort]
+    generalize [Switch.printHidden, .helpShort].foldl (Switch.apply h.flags) h.params = u at *
+    cases u
+    simp only at e1 e2 e3
+    subst e1 e2 e3
+    decide
+
+/-- `C18_lines_partition` on a text with every kind of line: 8 lines = 1 caption + 1 entry + 1 continuation line
+    owned by the entry + 5 ignored (`Usage:`, two lines of no kind, an orphan continuation line, an empty line);
+    the entry owns the words of its line and of the line below -/
+example :
+    let ls := ["Usage:".toList, captionOptional, "   -a  one".toList, "       more".toList, "-x secret".toList,
+               "  -y secret".toList, "       orphan".toList, []]
+    (captions ls).length = 1 ∧ (parseUsage ls).length = 1 ∧ absorbed ls = 1 ∧ (ignoredLines ls).length = 5
+    ∧ ((suffixes ls).filterMap entryAt).map (fun x => (x.1, x.2.1)) = [("-a".toList, ["one".toList, "more".toList])] := by
+  decide
 
 end CelmaVerif.Props.C18
